@@ -395,7 +395,7 @@ def rule_dims(chk, prog):
   got = [x.a[-1] for x in order.a] if order is not None and order.k == 'tuple' and all(x.k == 'global' for x in order.a) else None
   chk.check(got == ['XR_TIME_NAME', 'XR_LEVEL_NAME'] + names['nodal_axes'], rule, f'{XU}.xarray_to_data_dict: variables are transposed to (time, level) + NODAL_AXES_NAMES, the order the writer labels', str(got), (h.file, h.lineno))
   ex = [x for x in sym.walk(r) if x.k == 'call' and alg.ext_short(x.a[0]) == 'expand_dims']
-  ok = len(set(ex)) == 1 and dict(ex[0].a[2]).get('axis', ex[0].a[1][1] if len(ex[0].a[1]) > 1 else None) == sym.const(-3)
+  ok = len(set(ex)) == 1 and util.call_kwargs(ex[0]).get('axis', ex[0].a[1][1] if len(ex[0].a[1]) > 1 else None) == sym.const(-3)
   chk.check(ok, rule, f'{XU}.xarray_to_data_dict: surface variables regain the singleton level axis at position -3 (just before lon, lat)', sym.show(ex[0], maxdepth=3)[:100] if ex else 'no expand_dims', (h.file, h.lineno))
   chk.at_least(rule, 20)
 
@@ -712,7 +712,7 @@ def rule_pairs(chk, prog):
     leaves = v.a[1][1]
     body = leaves.a[0] if leaves.k == 'mapover' else leaves
     sq = body if match.is_ext_call(body, 'squeeze') else None
-    ok = sq is not None and (dict(sq.a[2]).get('axis') == AX or (len(sq.a[1]) > 1 and sq.a[1][1] == AX))
+    ok = sq is not None and (util.call_kwargs(sq).get('axis') == AX or (len(sq.a[1]) > 1 and sq.a[1][1] == AX))
     src = [x for x in sym.walk(leaves) if match.is_ext_call(x, 'split')]
     ok = ok and len(set(src)) == 1 and src[0].a[1][0] == S('array') and src[0].a[1][1] == Term('sub', Term('attr', S('array'), 'shape'), AX) and src[0].a[1][2] == AX
   chk.check(ok, rule, f'{PT}.unstack_to_pytree splits into array.shape[axis] pieces along `axis`, squeezes that same axis and rebuilds the tree', sym.show(v, maxdepth=6)[:200], loc('unstack_to_pytree'))
@@ -761,7 +761,7 @@ def rule_pairs(chk, prog):
   spl = [x for x in sym.walk(v) if match.is_ext_call(x, 'split')]
   sq = [x for x in sym.walk(v) if match.is_ext_call(x, 'squeeze')]
   def axis_of(c, pos):
-    return dict(c.a[2]).get('axis', c.a[1][pos] if len(c.a[1]) > pos else None)
+    return util.call_kwargs(c).get('axis', c.a[1][pos] if len(c.a[1]) > pos else None)
   def axis_ok(t, leaf):
     """`axis` itself, or `axis` normalised against the rank of the very leaf it is applied to."""
     if t == AX:
@@ -802,7 +802,7 @@ def prefix_stable(t):
       return prefix_stable(parts[-1])
     if t.a[0].k == 'attr' and t.a[0].a[1] == 'ravel' and not args:
       base = t.a[0].a[0]
-      if match.is_ext_call(base, 'stack') and dict(base.a[2]).get('axis') == sym.const(1) and base.a[1][0].k in ('list', 'tuple'):
+      if match.is_ext_call(base, 'stack') and util.call_kwargs(base).get('axis') == sym.const(1) and base.a[1][0].k in ('list', 'tuple'):
         for p in base.a[1][0].a:
           r = prefix_stable(p)
           if r:
